@@ -76,7 +76,9 @@ def runCx (c : Case) : Res :=
     let g := c.argNat "g"
     let expect := c.arg "expect"
     let J := judge K g
-    let strict := J.viols.filter (·.strict)
+    -- local violations (the vertex is the apex of a facet neighbour) first: if any exists it heads
+    -- the list, so a message that names a non-local one means there is no local one at all
+    let strict := let sv := J.viols.filter (·.strict); sv.filter (·.nbrApex) ++ sv.filter (fun v => !v.nbrApex)
     Id.run do
       let mut bad : List String := []      -- oracle failures (accept/reject differs from exact recomputation)
       let mut dis : List String := []      -- model-only disagreements
@@ -168,7 +170,22 @@ def runCx (c : Case) : Res :=
             bad := s!"cells after the flip differ from the bistellar move R={R} I={I} applied to the previous cells (FlipInfo / edit mismatch)" :: bad
       | _, _, _ => pure ()
       -- harness-side observations that must simply be 1 (computed on the Rust side from fingerprints)
+      -- C13 "further insertions give the same result": the Delaunay triangulation is only unique
+      -- FOR THE FLOATING-POINT PREDICATES where every orientation and in-sphere sign of the final
+      -- point set is decidable outside the tolerance band; elsewhere two valid runs may differ
+      let suffixDemanded : Bool :=
+        if c.arg "op" != "serde_roundtrip" then true else
+        let dp : List (Nat × DPt) := K.verts.filterMap (fun v => v.pt.map (fun p => (v.id, p)))
+        if dp.length > gpLimit K.D || dp.length < K.D + 2 then false else
+        (subsetsK (K.D + 1) (sortNat (dp.map (·.1)))).all (fun S =>
+          match S.mapM (fun i => dp.lookup i) with
+          | none => false
+          | some sp => dp.all (fun (vid, q) => S.contains vid ||
+              (let e := predExpect K.D sp q; e.orient.isSome && e.insphere.isSome)))
+      if c.arg "op" == "serde_roundtrip" then
+        stats := (if suffixDemanded then "cx.suffix.demanded" else "cx.suffix.band") :: stats
       for n in ["unchanged", "vertices_kept", "key_resolves", "one_added", "removed_gone", "same_vertices", "roundtrip_equal"] do
+        if n == "key_resolves" && !suffixDemanded then continue
         match c.ob n with
         | some (v :: rest) => if v != "1" then bad := s!"{n}={v} {" ".intercalate rest}" :: bad
         | _ => pure ()
